@@ -17,12 +17,36 @@ let o_hash h m = unhex (oracle (String.concat " " ["hash"; hash_name h; hexs m])
 let o_ecdsa c pub dig r s =
   yes (oracle (String.concat " " ["ecdsa_verify"; curve_name c; hexs pub; hexs dig; hexs (be_min r); hexs (be_min s)]))
 let o_ed pub msg sg = yes (oracle (String.concat " " ["ed25519_verify"; hexs pub; hexs msg; hexs sg]))
-let o_pkcs1 n e h dig sg =
-  yes (oracle (String.concat " " ["rsa_pkcs1_core"; hexs n; dec_of_n e; hash_name h; hexs dig; hexs sg]))
-(* RSASSA-PSS-VERIFY with the salt length enforced exactly (RFC 8017).  Both RSA oracles are the
-   "core": they read the signature as an integer; the length rule is std_pkcs1 / std_pss in the model *)
-let o_pss n e h salt dig sg =
-  yes (oracle (String.concat " " ["rsa_pss_core_strict"; hexs n; dec_of_n e; hash_name h; dec_of_n salt; hexs dig; hexs sg]))
+(* RSA: the verification is the RFC 8017 transcription model/Rsa8017.v (RSASSA-PKCS1-V1_5-VERIFY,
+   RSASSA-PSS-VERIFY with EMSA-PSS-VERIFY, MGF1, strict salt length); the only oracles are the hash
+   functions and the RSA public permutation s^e mod n (math/big) *)
+(* glue: the hexadecimal digits of a binary natural, read off its bits (no division) *)
+let hex_of_n (x : n) : string =
+  match x with
+  | N0 -> "-"
+  | Npos p ->
+    let bits = ref [] in                       (* least significant first *)
+    let rec go = function XH -> bits := true :: !bits
+                        | XO q -> bits := false :: !bits; go q
+                        | XI q -> bits := true :: !bits; go q in
+    go p;
+    let a = Array.of_list (List.rev !bits) in  (* a.(i) = bit i *)
+    let nb = Array.length a in
+    let nd = (nb + 3) / 4 in
+    let nd = if nd mod 2 = 1 then nd + 1 else nd in
+    let b = Bytes.make nd '0' in
+    for d = 0 to nd - 1 do
+      let v = ref 0 in
+      for j = 3 downto 0 do
+        let i = 4 * d + j in
+        v := 2 * !v + (if i < nb && a.(i) then 1 else 0)
+      done;
+      Bytes.set b (nd - 1 - d) "0123456789abcdef".[!v]
+    done;
+    Bytes.to_string b
+let o_rsaep n e s = be_val (unhex (oracle (String.concat " " ["rsa_ep"; hexs n; dec_of_n e; hex_of_n s])))
+let o_pkcs1 n e h dig sg = rfc_pkcs1_verify o_rsaep n e h dig sg
+let o_pss n e h salt dig sg = rfc_pss_verify o_hash o_rsaep n e h salt dig sg
 
 let show = function Ok _ -> "accept" | Err -> "reject" | Panic -> "MODEL-PANIC"
 
@@ -60,10 +84,10 @@ let handle line =
        let k = { ek_curve = curve_of c; ek_hash = hash_of h; ek_enc = enc_of e; ek_variant = v; ek_id = id; ek_pub = pub } in
        show (ecdsa_verify o_hash o_ecdsa k sg msg)
      | "ed25519", _ -> show (ed25519_verify o_ed v id pub sg msg)
-     (* crypto/rsa's length rule is applied by the model itself ([std_pkcs1] / [std_pss],
-        the functions of the wrong-length theorems); the oracle answers the core *)
-     | "pkcs1", [h; e] -> show (pkcs1_verify o_hash (std_pkcs1 o_pkcs1) (rsa_key (hash_of h) v id pub (n_of_dec e) N0) sg msg)
-     | "pss", [h; e; salt] -> show (pss_verify o_hash (std_pss o_pss) (rsa_key (hash_of h) v id pub (n_of_dec e) (n_of_dec salt)) sg msg)
+     (* o_pkcs1 / o_pss are the RFC 8017 transcriptions (= std_pkcs1 / std_pss of their cores:
+        rfc_pkcs1_is_std, rfc_pss_is_std), so the length rule is decided by the model *)
+     | "pkcs1", [h; e] -> show (pkcs1_verify o_hash o_pkcs1 (rsa_key (hash_of h) v id pub (n_of_dec e) N0) sg msg)
+     | "pss", [h; e; salt] -> show (pss_verify o_hash o_pss (rsa_key (hash_of h) v id pub (n_of_dec e) (n_of_dec salt)) sg msg)
      | _ -> failwith "scheme")
   | [_; "S"; _api; scheme; params; variant; id; priv; _msg; _seed] ->
     (* what Sign must return: prefix || body of the scheme's size; it verifies *)
